@@ -5,14 +5,19 @@ Tie: the float/trig glue (projection of WGS-84 coordinates to metres, rotation b
 The harness places receivers with an INDEPENDENT 50-digit `decimal` implementation of the local projection (own
 Taylor-series cosine, longitude wrap) and an explicit rotation into the area frame, feeds (a) the real
 `Router.gn_geometric_function_f` (signed coordinate range), (b) the real GBC/GAC receive path of a real Router that
-receives a packet originated by a second real Router (positive range: the wire codecs cannot carry negative
-coordinates yet — C02), and compares the *decision* with the Lean model evaluated on the oracle's frame coordinates
-(exact rationals) and with the oracle `oracle_inside` (EN 302 931 transcribed on Fractions).  A band of
-0.5 m + 0.1 % of the distance from the centre around the border is excluded and counted.
+receives a packet originated by a second real Router - directly (sender = source) or relayed by a third real Router
+(sender != source) - over all four hemispheres incl. the 180 degree meridian and the polar caps, and compares the
+*decision* with the Lean model and with the oracle `oracle_inside` (EN 302 931 transcribed on Fractions, on the
+harness' own decimal rotation).  The Lean model receives the receiver's offsets in the LOCAL (north, east) frame of
+the centre and an exact rational unit vector (c, s) within 1e-30 rad of (cos, sin) of the azimuth (`unit_cs`:
+t = tan(phi/2) rounded to a rational, c = (1-t^2)/(1+t^2), s = 2t/(1+t^2), quarter turns exact) - the ROTATION is done
+in Lean (`toFrame`/`codeFrame`), under the hypothesis c^2 + s^2 = 1 of the theorems, which the driver re-checks on every
+line.  A band of 0.5 m + 0.1 % of the distance from the centre around the border is excluded and counted.
 """
 from __future__ import annotations
 
 import math
+import functools
 from decimal import Decimal as D, getcontext
 from fractions import Fraction
 
@@ -22,7 +27,8 @@ import realstack as rs
 from flexstack.geonet.router import Router
 from flexstack.geonet.mib import MIB, AreaForwardingAlgorithm
 from flexstack.geonet.service_access_point import (
-    GNDataRequest, PacketTransportType, HeaderType, GeoBroadcastHST, GeoAnycastHST, Area, CommonNH, ResultCode)
+    GNDataRequest, PacketTransportType, HeaderType, GeoBroadcastHST, GeoAnycastHST, TopoBroadcastHST, Area, CommonNH,
+    ResultCode)
 from flexstack.geonet.position_vector import LongPositionVector, TST
 from flexstack.geonet.gbc_extended_header import GBCExtendedHeader
 
@@ -32,16 +38,19 @@ TRUSTED = [
     "glue: projection+rotation, tolerance-banded — Router.calculate_distance / rotate_to_area_frame (IEEE-754, math.cos/"
     "sin/radians) are validated only by the placement oracle: an independent 50-digit decimal evaluation of the same "
     "local map (sphere R = 6 371 000 m, x = R*dlat, y = R*dlon*cos(mean latitude), longitude difference wrapped to "
-    "[-180, 180]) followed by a rotation by the azimuth (clockwise from North)",
+    "[-180, 180]) followed by a rotation by the azimuth (clockwise from North); the Lean model rotates itself, with an "
+    "exact rational unit vector within 1e-30 rad of the azimuth (exact for 0/90/180/270 degrees and Pythagorean angles)",
     "EN 302 931 does not fix the map projection; the oracle uses the spherical equirectangular local map above",
     "area size: float products math.pi*a*a / math.pi*a*b are modelled by exact rational products with the rational "
     "value of math.pi (differences only possible within 1e-9 relative of the threshold)",
 ]
 ASSUMPTIONS = [
     "receivers closer to the border than 0.5 m + 0.1 % of their distance from the centre are excluded (tolerance_skips)",
-    "whole-packet runs use positive coordinates only (negative latitude/longitude cannot be encoded on the wire: C02)",
-    "whole-packet runs: fresh routers, traffic class without SCF, itsGnAreaForwardingAlgorithm = SIMPLE (no CBF timer), "
-    "sender = source (one hop); duplicate/DAD/PDR rejections belong to C06",
+    "whole-packet runs: fresh routers, traffic class without SCF, itsGnAreaForwardingAlgorithm = SIMPLE (no CBF timer); "
+    "duplicate/DAD/PDR rejections belong to C06",
+    "known finding C07-KF1: Annex D's sender position vector is looked up under the packet's SOURCE address (the link "
+    "layer hands the router no sender address); for a relayed packet (sender != source) whose source and sender entries "
+    "disagree on SE_POS_VALID-and-inside, a receiver outside the area forwards where Annex D discards (or vice versa)",
     "placements whose latitude would leave [-90, 90] degrees are not generated",
 ]
 
@@ -92,6 +101,46 @@ def to_frame(north, east, az_deg):
     th = D(az_deg) * PI / 180
     c, s = dcos(th), dsin(th)
     return north * c + east * s, -north * s + east * c
+
+
+@functools.lru_cache(maxsize=None)
+def _unit_cs_deg(az):
+    q, phi = divmod(int(az) % 360, 90)
+    if phi == 0:
+        c0, s0 = Fraction(1), Fraction(0)
+    else:
+        th = D(phi) * PI / 360
+        t = Fraction(dsin(th) / dcos(th)).limit_denominator(10 ** 32)
+        c0, s0 = (1 - t * t) / (1 + t * t), 2 * t / (1 + t * t)
+    for _ in range(q):                 # + 90 degrees: (cos, sin) -> (-sin, cos)
+        c0, s0 = -s0, c0
+    return c0, s0
+
+
+def unit_cs(c):
+    """exact rational unit vector (cos, sin) of the case's azimuth: `cs` = [n, m, d] with n^2 + m^2 = d^2 for the
+    Pythagorean azimuths (exact), otherwise within 1e-30 rad of the integer azimuth (exact for quarter turns)"""
+    if c.get("cs"):
+        n, m, d = c["cs"]
+        return Fraction(n, d), Fraction(m, d)
+    return _unit_cs_deg(c["az"])
+
+
+def local_ne(lat0, lon0, lat, lon):
+    n, e = project(lat0, lon0, lat, lon)
+    return Fraction(n), Fraction(e)
+
+
+PYTH = [(3, 4, 5), (5, 12, 13), (8, 15, 17), (7, 24, 25), (20, 21, 29)]
+
+
+def pyth_azimuth(rng):
+    """an azimuth whose sine and cosine are rational: returns (float degrees, [n, m, d])"""
+    p, q, d = rng.choice(PYTH)
+    if rng.random() < 0.5:
+        p, q = q, p
+    p, q = p * rng.choice([-1, 1]), q * rng.choice([-1, 1])
+    return math.degrees(math.atan2(q, p)) % 360.0, [p, q, d]
 
 
 def place(lat0, lon0, az, xt, yt):
@@ -164,13 +213,14 @@ def gen_area(rng, positive):
     else:
         b = rng.choice([1, 10, 100, 1000, 65535, rng.randrange(1, 65536), rng.randrange(1, 3000)])
     az = rng.choice([0, 0, 90, 180, 270, 45, 30, 1, 359, 89, 91, rng.randrange(0, 360), rng.randrange(0, 360)])
-    if positive:
+    if positive:     # one quadrant only (kept for the seeded-change self tests; not used by run/search any more)
         lat0 = rng.choice([415000000, 100000000 + rng.randrange(0, 700000000), 20000000 + rng.randrange(0, 10 ** 7)])
         lon0 = rng.choice([21000000, 20000000 + rng.randrange(0, 1700000000), 20000000 + rng.randrange(0, 10 ** 7)])
-    else:
-        lat0 = rng.choice([rng.randrange(-850000000, 850000001), rng.randrange(-850000000, 850000001), 0, 415000000, -337000000, 1000, -1000])
+    else:            # all four hemispheres, equator / Greenwich / 180 degree meridian, polar caps up to the poles
+        lat0 = rng.choice([rng.randrange(-850000000, 850000001), rng.randrange(-850000000, 850000001), 0, 415000000, -337000000, 1000, -1000,
+                           rng.choice([-1, 1]) * rng.randrange(850000000, 899990000), rng.choice([-900000000, 900000000, 899999000, -899999000])])
         lon0 = rng.choice([rng.randrange(-1800000000, 1800000001), rng.randrange(-1800000000, 1800000001), 0, 21000000, -703000000,
-                           1799990000, -1799990000, 1800000000, -1800000000])
+                           1799990000, -1799990000, 1800000000, -1800000000, 1000, -1000])
     return shape, a, b, az, lat0, lon0
 
 
@@ -211,14 +261,17 @@ def gen_target(rng, shape, a, b):
     return cat, k * ux, k * vy
 
 
-def gen_case(rng, positive):
+def gen_case(rng, positive, pyth=False):
     shape, a, b, az, lat0, lon0 = gen_area(rng, positive)
+    extra = {}
+    if pyth:      # direct calls only: the wire carries whole degrees
+        az, extra["cs"] = pyth_azimuth(rng)
     for _ in range(20):
         cat, xt, yt = gen_target(rng, shape, a, b)
         p = place(lat0, lon0, az, xt, yt)
         if p is not None and (not positive or (p[0] > 10 ** 6 and p[1] > 10 ** 6)):
-            return {"shape": shape, "a": a, "b": b, "az": az, "lat0": lat0, "lon0": lon0, "lat": p[0], "lon": p[1], "cat": cat}
-    return {"shape": shape, "a": a, "b": b, "az": az, "lat0": lat0, "lon0": lon0, "lat": lat0, "lon": lon0, "cat": "centre"}
+            return dict({"shape": shape, "a": a, "b": b, "az": az, "lat0": lat0, "lon0": lon0, "lat": p[0], "lon": p[1], "cat": cat}, **extra)
+    return dict({"shape": shape, "a": a, "b": b, "az": az, "lat0": lat0, "lon0": lon0, "lat": lat0, "lon": lon0, "cat": "centre"}, **extra)
 
 
 # ---------------------------------------------------------------------------------- (a) direct function calls
@@ -255,13 +308,17 @@ def check_direct(ctx, cases, stream="F.direct"):
             recs.append((c, transport, f, None, None, "degenerate"))
             continue
         bb = b if c["shape"] != "circle" else max(b, 1)
-        x, y = frame_coords(c["lat0"], c["lon0"], c["az"], c["lat"], c["lon"])
-        lines.append(f"F {c['shape']} {a} {bb} {rat(x)} {rat(y)}")
+        x, y = frame_coords(c["lat0"], c["lon0"], c["az"], c["lat"], c["lon"])       # oracle: own decimal rotation
+        n, e = local_ne(c["lat0"], c["lon0"], c["lat"], c["lon"])
+        cs = unit_cs(c)
+        lines.append(f"Floc {c['shape']} {a} {bb} {rat(cs[0])} {rat(cs[1])} {rat(n)} {rat(e)}")    # model: Lean rotates
         recs.append((c, transport, f, x, y, "band" if in_band(c["shape"], a, bb, x, y) else "ok"))
     out = ctx.model("Area", lines) if ctx.model_ok and lines else [None] * len(lines)
     for (c, transport, f, x, y, kind), mo in zip(recs, out):
         tag = {k: c[k] for k in ("shape", "a", "b", "az", "lat0", "lon0", "lat", "lon")}
         tag.update(kind="direct", transport=transport)
+        if c.get("cs"):
+            tag["cs"] = c["cs"]
         if kind == "degenerate":
             ctx.cover("degenerate_" + str(f))
             if mo is not None and mo != f:
@@ -277,28 +334,43 @@ def check_direct(ctx, cases, stream="F.direct"):
         got = f >= 0
         ctx.cover(f"direct_{c['shape']}_{'in' if want else 'out'}")
         ctx.cover("cat_" + c.get("cat", "corpus"))
-        ctx.cover("azimuth_0" if c["az"] % 360 == 0 else ("azimuth_quarter" if c["az"] % 90 == 0 else "azimuth_oblique"))
-        if c["lat0"] < 0 or c["lon0"] < 0:
-            ctx.cover("centre_negative_hemisphere")
+        ctx.cover("azimuth_pythagorean_exact" if c.get("cs") else
+                  ("azimuth_0" if c["az"] % 360 == 0 else ("azimuth_quarter_exact" if c["az"] % 90 == 0 else "azimuth_oblique")))
+        cover_hemisphere(ctx, "direct", c["lat0"], c["lon0"])
         ctx.nontrivial(("F", c["shape"], c["a"], c["b"], c["az"], c["lat0"] // 10 ** 7, c["lon0"] // 10 ** 7, want))
         if got != want:
             ctx.violation(f"{c['shape']} a={c['a']} b={c['b']} azimuth={c['az']} centre=({c['lat0']},{c['lon0']}): receiver at "
                           f"({c['lat']},{c['lon']}) = frame ({float(x):.2f},{float(y):.2f}) m is {'inside' if want else 'outside'}, "
                           f"F = {f:.6g} says {'inside' if got else 'outside'}", tag, classify(tag))
         if mo is not None:
-            msign = mo.split()[0]
-            if (msign in "+0") != got:
+            mt = mo.split()
+            if len(mt) != 5 or mt[0] != "1":           # hypothesis c^2 + s^2 = 1 of the rotation theorems, re-checked by the driver
+                ctx.mismatch(stream + ".unit_vector", tag, "c*c+s*s=1", mo)
+                continue
+            if (mt[1] in "+0") != got:
                 ctx.mismatch(stream, tag, f"F={f!r}", mo)
-            if (mo.split()[1] == "1") != want:
+            if (mt[2] == "1") != want:
                 ctx.mismatch(stream + ".oracle_vs_model", tag, want, mo)
+            if (mt[4] in "+0") != (mt[1] in "+0"):
+                ctx.cover("rotation_decides")      # the pre-F1 (unrotated) evaluation would have decided this placement the other way
     if recs:
         c, tr, f, x, y, kind = recs[len(recs) // 2]
         ctx.sample("direct", {"case": {k: v for k, v in c.items()}, "F": f if not isinstance(f, float) else round(f, 9),
                               "frame_xy_m": None if x is None else [round(float(x), 3), round(float(y), 3)], "kind": kind})
 
 
+def cover_hemisphere(ctx, what, lat0, lon0):
+    ctx.cover(f"{what}_hemisphere_{'N' if lat0 >= 0 else 'S'}{'E' if lon0 >= 0 else 'W'}")
+    if abs(lon0) >= 1799000000:
+        ctx.cover(f"{what}_at_180_meridian")
+    if abs(lat0) >= 850000000:
+        ctx.cover(f"{what}_polar_cap")
+
+
 def classify(tag):
-    return None   # no status:"known" entries for C07
+    """known finding C07-KF1 (Annex D keyed by the source instead of the sender): decided by `kf1_region` in
+    check_packets from the oracle's own quantities; direct / source / annexd cases never fall under it"""
+    return tag.get("_kf")
 
 
 # ---------------------------------------------------------------------------------- (b) whole packets
@@ -328,11 +400,36 @@ def originate(c):
     return code, llA.take()
 
 
-def receive(c, pkt):
-    """receiver / forwarder B: returns (delivered n, forwarded kind list, indication area)"""
+def relay(c, pkt):
+    """the relaying station R (a third real Router, address 3, no size limit): receives the source's frame and forwards
+    it.  Returns (frames R forwarded, R's SHB frame or None, error name or None)"""
+    rl = c["relay"]
+    R, llR, _ = rs.make_router(3, itsGnMaxGeoAreaSize=10 ** 7, itsGnAreaForwardingAlgorithm=AreaForwardingAlgorithm.SIMPLE)
+    R.ego_position_vector = lpv(R, rl["lat"], rl["lon"], rl.get("pai", True))
+    try:
+        R.gn_data_indicate(pkt)
+    except Exception as e:  # noqa: BLE001
+        return [], None, type(e).__name__
+    fw = llR.take()
+    shb = None
+    if rl.get("known", True):      # the receiver learns the sender's position from a single-hop broadcast of R
+        R.gn_data_request(GNDataRequest(upper_protocol_entity=CommonNH.BTP_B, data=b"r", length=1,
+                                        packet_transport_type=PacketTransportType(header_type=HeaderType.TSB,
+                                                                                  header_subtype=TopoBroadcastHST.SINGLE_HOP)))
+        out = llR.take()
+        shb = out[0] if out else None
+    return fw, shb, None
+
+
+def receive(c, pkt, shb=None):
+    """receiver / forwarder B: returns (actions, error, indications, frames sent)"""
     B, llB, inds = rs.make_router(2, itsGnMaxGeoAreaSize=c.get("max_rx", 10 ** 7),
                                   itsGnAreaForwardingAlgorithm=AreaForwardingAlgorithm.SIMPLE)
     B.ego_position_vector = lpv(B, c["lat"], c["lon"])
+    if shb is not None:
+        B.gn_data_indicate(shb)
+        llB.take()
+        del inds[:]
     greedy = []
     orig = B.gn_greedy_forwarding
 
@@ -353,12 +450,30 @@ def receive(c, pkt):
     return acts, err, inds, sent
 
 
-def se_token(c, fse_sign_rat):
-    return f"{1 if c.get('src_pai', True) else 0}:{fse_sign_rat}"
+_SE_KEY = None
+
+
+def detect_se_key():
+    """C07-KF1 variant detection on the real code: circle r = 100 m, source 500 m north (outside), relay at the centre
+    (inside, PAI, known to the receiver), receiver 150 m north (outside).  Annex D with the SENDER's position: discard;
+    keyed by the SOURCE: non-area forwarding."""
+    global _SE_KEY
+    if _SE_KEY is None:
+        lat0, lon0 = 415000000, 21000000
+        c = {"transport": "gbc", "shape": "circle", "a": 100, "b": 0, "az": 0, "lat0": lat0, "lon0": lon0, "hop": 5, "src_pai": True,
+             "relay": {"lat": lat0, "lon": lon0, "pai": True, "known": True}}
+        c["src_lat"], c["src_lon"] = place(lat0, lon0, 0, 500.0, 0.0)
+        c["lat"], c["lon"] = place(lat0, lon0, 0, 150.0, 0.0)
+        code, pkts = originate(c)
+        fw, shb, _ = relay(c, pkts[0]) if pkts else ([], None, None)
+        acts = receive(c, fw[0], shb)[0] if fw else []
+        _SE_KEY = "source" if any(a.startswith("fwd") for a in acts) else "sender"
+    return _SE_KEY
 
 
 def check_packets(ctx, cases):
     lines, recs = [], []
+    key = detect_se_key()
     for c in cases:
         code, pkts = originate(c)
         ctx.evals()
@@ -368,20 +483,35 @@ def check_packets(ctx, cases):
         if code != "ACCEPTED" or len(pkts) != 1:
             ctx.violation(f"source refused/failed a request that fits the limit: {code}, {len(pkts)} packets", tag)
             continue
-        pkt = pkts[0]
+        pkt, shb, rl = pkts[0], None, c.get("relay")
+        if rl:
+            fw, shb, rerr = relay(c, pkt)
+            if rerr or len(fw) != 1:       # the relay discarded (its own Annex D decision; judged as a one-hop case elsewhere)
+                ctx.cover("relay_did_not_forward")
+                continue
+            pkt = fw[0]
         rhl = pkt[3]
-        acts, err, inds, sent = receive(c, pkt)
+        acts, err, inds, sent = receive(c, pkt, shb)
         x, y = frame_coords(c["lat0"], c["lon0"], c["az"], c["lat"], c["lon"])
         sx, sy = frame_coords(c["lat0"], c["lon0"], c["az"], c["src_lat"], c["src_lon"])
-        if in_band(shape, a, bb, x, y) or in_band(shape, a, bb, sx, sy):
+        rx, ry = frame_coords(c["lat0"], c["lon0"], c["az"], rl["lat"], rl["lon"]) if rl else (sx, sy)
+        if in_band(shape, a, bb, x, y) or in_band(shape, a, bb, sx, sy) or in_band(shape, a, bb, rx, ry):
             ctx.cover("tolerance_skips")
             continue
         ego_in = oracle_inside(shape, a, bb, x, y)
-        se_in = oracle_inside(shape, a, bb, sx, sy)
+        so_in = oracle_inside(shape, a, bb, sx, sy)
+        so_pai = c.get("src_pai", True)
+        # Annex D's sender = the station the frame was received from: the source on the first hop, the relay afterwards
+        if rl:
+            se_known, se_pai, se_in = rl.get("known", True), rl.get("pai", True), oracle_inside(shape, a, bb, rx, ry)
+        else:
+            se_known, se_pai, se_in = True, so_pai, so_in
+        se_verdict = se_known and se_pai and se_in          # SE_POS_VALID and F(sender) >= 0
+        so_verdict = so_pai and so_in                        # the same for the source's entry (what the code consults)
         size = area_size(shape, a, b)
         over = size > c.get("max_rx", 10 ** 7) * 10 ** 6
         # ---- oracle: property text
-        bad = []
+        bad, annex_bad = [], []
         if err:
             bad.append(f"receive path raised {err}")
         if ego_in and "deliver" not in acts:
@@ -396,11 +526,12 @@ def check_packets(ctx, cases):
         if over and fw:
             bad.append("packet with an area larger than itsGnMaxGeoAreaSize was forwarded")
         if not over and rhl > 1 and not (c["transport"] == "gac" and ego_in):
-            want = "fwd-area" if ego_in else ("none" if (c.get("src_pai", True) and se_in) else "fwd-nonarea")
+            want = "fwd-area" if ego_in else ("none" if se_verdict else "fwd-nonarea")
             got = fw[0] if fw else "none"
             if got != want or len(fw) > 1:
-                bad.append(f"Annex D: ego {'inside' if ego_in else 'outside'}, sender PAI={c.get('src_pai', True)} "
-                           f"{'inside' if se_in else 'outside'} -> expected {want}, got {fw or 'none'}")
+                annex_bad.append(f"Annex D: ego {'inside' if ego_in else 'outside'}, sender "
+                                 f"{'= source' if not rl else ('relay' if se_known else 'relay (unknown to the receiver)')} PAI={se_pai} "
+                                 f"{'inside' if se_in else 'outside'} -> expected {want}, got {fw or 'none'}")
         if rhl <= 1 and fw:
             bad.append("forwarded with remaining hop limit 1")
         for ind in inds:
@@ -410,35 +541,60 @@ def check_packets(ctx, cases):
         for s in sent:
             if s[3] != rhl - 1:
                 bad.append(f"forwarded with RHL {s[3]}, received {rhl}")
-        if bad:
-            ctx.violation(f"{c['transport']} {shape} a={a} b={b} azimuth={c['az']} rhl={rhl}: " + "; ".join(bad[:3]), tag, classify(tag))
+        # C07-KF1 region: a relayed packet, receiver outside, source and sender entries disagree on the Annex D verdict
+        kf1_region = bool(rl) and not ego_in and so_verdict != se_verdict
+        if bad or annex_bad:
+            # ... and the observed transmissions are exactly those of Annex D evaluated on the SOURCE's entry
+            only_kf = (not bad) and kf1_region and fw == ([] if so_verdict else ["fwd-nonarea"])
+            tag2 = dict(tag, _kf="C07-KF1") if only_kf else tag
+            ctx.violation(f"{c['transport']} {shape} a={a} b={b} azimuth={c['az']} rhl={rhl}: " + "; ".join((bad + annex_bad)[:3]),
+                          tag2, classify(tag2))
         ctx.cover(f"packet_{c['transport']}_{shape}_{'in' if ego_in else 'out'}")
-        ctx.cover("annexD_ego%d_pai%d_se%d" % (ego_in, c.get("src_pai", True), se_in))
+        ctx.cover("annexD_%s_ego%d_valid%d_se%d" % ("relayed" if rl else "firsthop", ego_in, se_known and se_pai, se_in))
+        if rl:
+            ctx.cover("relayed_packets")
+            ctx.cover("relayed_source_vs_sender_" + ("disagree" if so_verdict != se_verdict else "agree"))
+        cover_hemisphere(ctx, "packet", c["lat0"], c["lon0"])
+        if c["lat"] < 0 or c["lon"] < 0 or c["src_lat"] < 0 or c["src_lon"] < 0:
+            ctx.cover("packet_negative_coordinate_on_the_wire")
         if over:
             ctx.cover("packet_oversize_at_receiver")
         ctx.cover(f"rhl_{'1' if rhl <= 1 else ('2' if rhl == 2 else 'more')}")
-        ctx.nontrivial(("pkt", c["transport"], shape, a, b, c["az"], ego_in, se_in, c.get("src_pai", True), over, min(rhl, 3)))
-        # ---- model
-        fe = "1" if ego_in else "-1"     # the model needs F(ego), F(sender) only through their sign: take them from Lean's own F below
-        lines.append(f"F {shape} {a} {bb} {rat(x)} {rat(y)}")
-        lines.append(f"F {shape} {a} {bb} {rat(sx)} {rat(sy)}")
+        ctx.nontrivial(("pkt", c["transport"], shape, a, b, c["az"], ego_in, so_in, so_pai, bool(rl), se_verdict, over, min(rhl, 3)))
+        # ---- model: Lean rotates ego / source / sender itself (local offsets + exact unit vector), then decides
+        cs = unit_cs(c)
+        for (la, lo) in ((c["lat"], c["lon"]), (c["src_lat"], c["src_lon"]), ((rl["lat"], rl["lon"]) if rl else (c["src_lat"], c["src_lon"]))):
+            n, e = local_ne(c["lat0"], c["lon0"], la, lo)
+            lines.append(f"Floc {shape} {a} {bb} {rat(cs[0])} {rat(cs[1])} {rat(n)} {rat(e)}")
         lines.append(f"size {shape} {a} {b} {c.get('max_rx', 10 ** 7)}")
-        recs.append((tag, acts, rhl, over))
+        recs.append((tag, acts, rhl, over, (so_pai, se_known, se_pai)))
     if ctx.model_ok and lines:
         out = ctx.model("Area", lines)
         lines2 = []
-        for k, (tag, acts, rhl, over) in enumerate(recs):
-            f1, f2, ov = out[3 * k].split()[0], out[3 * k + 1].split()[0], out[3 * k + 2]
-            val = {"+": "1", "0": "0", "-": "-1"}
-            lines2.append(f"{tag['transport']} {val[f1]} {rhl} {ov} 0 {1 if tag.get('src_pai', True) else 0}:{val[f2]}")
+        val = {"+": "1", "0": "0", "-": "-1"}
+        for k, (tag, acts, rhl, over, (so_pai, se_known, se_pai)) in enumerate(recs):
+            f = [out[4 * k + j].split() for j in range(3)]
+            ov = out[4 * k + 3]
+            if any(len(t) != 5 or t[0] != "1" for t in f):
+                ctx.mismatch("packet.unit_vector", tag, "c*c+s*s=1", [" ".join(t) for t in f])
+                lines2.append("gbc2 source 1 1 0 0 none none")
+                continue
+            se_src = f"{1 if so_pai else 0}:{val[f[1][1]]}"
+            se_snd = f"{1 if se_pai else 0}:{val[f[2][1]]}" if se_known else "none"
+            lines2.append(f"{tag['transport']}2 {key} {val[f[0][1]]} {rhl} {ov} 0 {se_src} {se_snd}")
             if (ov == "1") != over:
                 ctx.mismatch("size.oracle_vs_model", tag, over, ov)
         out2 = ctx.model("Area", lines2)
-        for (tag, acts, rhl, over), mo in zip(recs, out2):
+        for (tag, acts, rhl, over, _), l2, mo in zip(recs, lines2, out2):
+            if l2.endswith("none none") and l2.startswith("gbc2 source 1 1 0 0"):
+                continue
             if "[" + " ".join(acts) + "]" != mo:
                 ctx.mismatch("packet.actions", tag, acts, mo)
     if recs:
         ctx.sample("packet", {"case": recs[0][0], "actions": recs[0][1], "rhl": recs[0][2]})
+        rel = [r for r in recs if r[0].get("relay")]
+        if rel:
+            ctx.sample("packet_relayed", {"case": rel[0][0], "actions": rel[0][1], "rhl": rel[0][2]})
 
 
 def area_size(shape, a, b):
@@ -446,23 +602,33 @@ def area_size(shape, a, b):
     return pi * a * a if shape == "circle" else (pi * a * b if shape == "ellipse" else Fraction(4 * a * b))
 
 
-def gen_packet_case(rng):
-    c = gen_case(rng, True)
+def _place_somewhere(rng, c):
+    """a position steered to a category relative to the case's area (centre if nothing fits on the globe)"""
+    for _ in range(20):
+        cat, xt, yt = gen_target(rng, c["shape"], c["a"], c["b"])
+        p = place(c["lat0"], c["lon0"], c["az"], xt, yt)
+        if p is not None:
+            return p
+    return c["lat0"], c["lon0"]
+
+
+def gen_packet_case(rng, relay_p=0.4):
+    c = gen_case(rng, False)                      # all four hemispheres, +-180 degrees, polar caps: signed values on the wire
     c["transport"] = rng.choice(["gbc", "gac"])
     shape, a, b = c["shape"], c["a"], c["b"]
-    # sender (= source) position: inside or outside the area
-    for _ in range(20):
-        cat, xt, yt = gen_target(rng, shape, a, b)
-        p = place(c["lat0"], c["lon0"], c["az"], xt, yt)
-        if p is not None and p[0] > 10 ** 6 and p[1] > 10 ** 6:
-            c["src_lat"], c["src_lon"] = p
-            break
-    else:
-        c["src_lat"], c["src_lon"] = c["lat0"], c["lon0"]
+    c["src_lat"], c["src_lon"] = _place_somewhere(rng, c)       # source position: inside or outside the area
     c["src_pai"] = rng.random() < 0.6
     c["hop"] = rng.choice([1, 2, 2, 3, 10, 10, 255])
     size = float(area_size(shape, a, b)) / 1e6
     c["max_rx"] = rng.choice([10, 10, 1, 100, 10 ** 7, max(1, int(size)), int(size) + 1, max(1, int(size) - 1)])
+    if rng.random() < relay_p:                    # two hops: the receiver gets the frame from a relay, sender != source
+        c["hop"] = rng.choice([3, 3, 10, 255, 2])
+        rl = dict(zip(("lat", "lon"), _place_somewhere(rng, c)))
+        rl["pai"] = rng.random() < 0.7
+        rl["known"] = rng.random() < 0.8
+        c["relay"] = rl
+        if rng.random() < 0.5:                     # make the relay forward more often: source outside or without PAI
+            c["src_pai"] = rng.random() < 0.5
     return c
 
 
@@ -484,10 +650,13 @@ def check_source(ctx, n):
             b0 = int(lim / (math.pi * a)) if shape == "ellipse" else lim // (4 * a)
             b = min(65535, max(1, b0 + rng.choice([-2, -1, 0, 1, 2, 3, rng.randrange(-b0, b0 + 1) if b0 else 0])))
         inside_src = rng.random() < 0.5
-        c = {"transport": rng.choice(["gbc", "gac"]), "shape": shape, "a": a, "b": b, "az": rng.randrange(360), "lat0": 415000000, "lon0": 21000000,
+        lat0 = rng.choice([415000000, -337000000, rng.randrange(-800000000, 800000001)])
+        lon0 = rng.choice([21000000, -703000000, 1799990000, -1800000000, rng.randrange(-1800000000, 1800000001)])
+        c = {"transport": rng.choice(["gbc", "gac"]), "shape": shape, "a": a, "b": b, "az": rng.randrange(360), "lat0": lat0, "lon0": lon0,
              "max_src": mx, "hop": 10, "src_pai": True}
-        off = 0 if inside_src else 30000000
-        c["src_lat"], c["src_lon"] = 415000000 + off, 21000000
+        off = 0 if inside_src else (30000000 if lat0 < 0 else -30000000)       # source at the centre / 333 km towards the equator
+        c["src_lat"], c["src_lon"] = lat0 + off, lon0
+        cover_hemisphere(ctx, "source", lat0, lon0)
         code, pkts = originate(c)
         ctx.evals()
         over = area_size(shape, a, b) > lim
@@ -575,6 +744,50 @@ def check_annexd(ctx, n):
                 ctx.mismatch("annexd", tag, real, mo)
 
 
+# ---------------------------------------------------------------------------------- (e) the trigonometric glue itself
+
+def check_trig(ctx):
+    """ties the abstract unit vector (c, s) of the rotation theorems to the code's `math.cos/sin(math.radians(angle))`:
+    for EVERY integer azimuth 0..359 (and the Pythagorean ones) the real `Router.rotate_to_area_frame`, applied to the
+    output convention of `calculate_distance` (x = -north, y = east), agrees with the Lean `codeFrame` evaluated on the
+    exact rational unit vector of that azimuth within 1e-9 relative + 1e-9 m (exactly for quarter turns up to the
+    float representation of cos 90 degrees = 6e-17)."""
+    rng = ctx.rng
+    cases = [{"az": az} for az in range(360)]
+    for p, q, d in PYTH:
+        for (n, m) in ((p, q), (q, p), (-p, q), (p, -q), (-q, -p)):
+            cases.append({"az": math.degrees(math.atan2(m, n)) % 360.0, "cs": [n, m, d]})
+    lines, recs = [], []
+    for c in cases:
+        cs = unit_cs(c)
+        for (n, e) in ((1000, 0), (0, 1000), (rng.randrange(-70000, 70001), rng.randrange(-70000, 70001))):
+            try:
+                rx, ry = Router.rotate_to_area_frame((float(-n), float(e)), c["az"])
+            except Exception as ex:  # noqa: BLE001
+                ctx.violation(f"rotate_to_area_frame raised {type(ex).__name__} for azimuth {c['az']}", {"kind": "trig", "az": c["az"], "n": n, "e": e})
+                continue
+            ctx.evals()
+            lines.append(f"frame {rat(cs[0])} {rat(cs[1])} {n} {e}")
+            recs.append((c, n, e, rx, ry, cs))
+    ctx.cover("trig_azimuths", len(cases))
+    for (c, n, e, rx, ry, cs) in recs:       # oracle: the rotation of the standard (clockwise from North), own decimal trig
+        x, y = to_frame(D(n), D(e), c["az"])
+        tol = 1e-9 * (abs(n) + abs(e)) + 1e-9
+        if abs(float(-x) - rx) > tol or abs(float(y) - ry) > tol:
+            ctx.violation(f"rotate_to_area_frame(({-n}, {e}), {c['az']}) = ({rx!r}, {ry!r}), the rotation by the azimuth gives "
+                          f"({float(-x)!r}, {float(y)!r})", {"kind": "trig", "az": c["az"], "n": n, "e": e})
+    if ctx.model_ok and lines:
+        for (c, n, e, rx, ry, cs), mo in zip(recs, ctx.model("Area", lines)):
+            mt = mo.split()
+            if len(mt) != 3 or mt[0] != "1":
+                ctx.mismatch("trig.unit_vector", {"az": c["az"]}, "c*c+s*s=1", mo)
+                continue
+            mx, my = Fraction(mt[1]), Fraction(mt[2])
+            tol = 1e-9 * (abs(n) + abs(e)) + 1e-9
+            if abs(float(mx) - rx) > tol or abs(float(my) - ry) > tol:
+                ctx.mismatch("trig.frame", {"az": c["az"], "n": n, "e": e}, [rx, ry], mo)
+
+
 # ---------------------------------------------------------------------------------- degenerate semi-axes
 
 def degenerate_cases():
@@ -586,6 +799,9 @@ def degenerate_cases():
 
 
 FIXED_DIRECT = [
+    # exact oblique azimuth (3-4-5): rectangle 100 x 10 m, receiver 30 m north / 40 m east lies on the long axis
+    {"shape": "rect", "a": 100, "b": 10, "az": math.degrees(math.atan2(4, 3)), "cs": [3, 4, 5], "lat0": 415000000, "lon0": 21000000,
+     "lat": 415002698, "lon": 21004802, "cat": "witness"},
     # C07-F1 witness: rectangle 100 x 10 m at azimuth 90 deg; receiver 50 m east (inside) and 50 m north (outside)
     {"shape": "rect", "a": 100, "b": 10, "az": 90, "lat0": 415000000, "lon0": 21000000, "lat": 415000000, "lon": 21006003, "cat": "witness"},
     {"shape": "rect", "a": 100, "b": 10, "az": 90, "lat0": 415000000, "lon0": 21000000, "lat": 415004497, "lon": 21000000, "cat": "witness"},
@@ -609,7 +825,11 @@ def run(ctx):
         pk = [c for c in corp if c.get("kind") == "packet"]
         if pk:
             check_packets(ctx, pk)
+        key = detect_se_key()
+        ctx.extra["variant"] = {"C07-KF1": "Annex D keyed by the packet's SOURCE (code as is)" if key == "source"
+                                else "Annex D keyed by the SENDER (repaired)"}
         check_direct(ctx, [gen_case(rng, False) for _ in range(ctx.scale(8000, 600000))])
+        check_direct(ctx, [gen_case(rng, False, pyth=True) for _ in range(ctx.scale(600, 40000))], "F.pythagorean")
         if ctx.thorough:   # azimuth swept in 1 degree steps
             sweep = []
             for az in range(360):
@@ -625,6 +845,7 @@ def run(ctx):
         check_packets(ctx, [gen_packet_case(rng) for _ in range(ctx.scale(2200, 120000))])
         check_source(ctx, ctx.scale(300, 20000))
         check_annexd(ctx, ctx.scale(600, 60000))
+        check_trig(ctx)
 
 
 def search(ctx):
@@ -644,11 +865,12 @@ class _Probe:
     """minimal ctx for replay: collects violations only"""
 
     def __init__(self, ctx):
-        self.ctx, self.v = ctx, []
+        self.ctx, self.v, self.kf = ctx, [], []
         self.model_ok, self.rng, self.thorough = False, ctx.rng, False
+        self.known = {k["id"] for k in getattr(ctx, "known", []) if k.get("status") == "known"}
 
     def violation(self, what, replay, finding=None):
-        self.v.append(what)
+        (self.kf if finding in self.known else self.v).append(what)
 
     def scale(self, q, t):
         return q
@@ -673,9 +895,15 @@ def replay(ctx, obj):
                 p.v.append(f"confirm {code}, {len(pkts)} packets, oversize={over}")
         elif kind == "annexd":
             return _replay_annexd(case)
+        elif kind == "trig":
+            rx, ry = Router.rotate_to_area_frame((float(-case["n"]), float(case["e"])), case["az"])
+            x, y = to_frame(D(case["n"]), D(case["e"]), case["az"])
+            tol = 1e-9 * (abs(case["n"]) + abs(case["e"])) + 1e-9
+            print(f"rotate_to_area_frame -> ({rx!r}, {ry!r}); rotation by the azimuth -> ({float(-x)!r}, {float(y)!r})")
+            return abs(float(-x) - rx) > tol or abs(float(y) - ry) > tol
         else:
             raise Infra(f"unknown replay kind {kind}")
-    print("oracle:", p.v or "ok")
+    print("oracle:", p.v or "ok", ("known finding: %s" % p.kf) if p.kf else "")
     return bool(p.v)
 
 
